@@ -1012,7 +1012,7 @@ func (e *Engine) concretizeReg(st *State, v ssa.Value, t *Term, what string) ([]
 			continue
 		}
 		ch := e.Clone(st)
-		ch.addPC(cond)
+		e.addHardPC(ch, cond)
 		ch.wframe().regs[v] = k
 		out = append(out, ch)
 	}
@@ -1031,7 +1031,7 @@ func (e *Engine) concretizeSliceLen(st *State, v ssa.Value, s SliceV) ([]*State,
 			continue
 		}
 		ch := e.Clone(st)
-		ch.addPC(cond)
+		e.addHardPC(ch, cond)
 		ns := s
 		ns.Len = n
 		ns.LenT = nil
